@@ -139,7 +139,8 @@ func (s *Service) ModifyStance(data info.ModifyAttribute) error {
 	}
 	attr := t.attributes
 
-	stats := s.Stats(data.Target)
+	// stance damage scales with the toughness-damage bonus of whoever deals it (the source)
+	stats := s.Stats(data.Source)
 	newStance := attr.Stance + data.Amount*(1+stats.GetProperty(prop.AllStanceDMGPercent))
 	return s.SetStance(info.ModifyAttribute{
 		Key:    data.Key,
